@@ -1,0 +1,87 @@
+//! Observation hooks for runtime verification.
+//!
+//! This module only exists when the `verif_hooks` cargo feature is
+//! enabled (it is off by default).  It holds a thread-local event log
+//! that external monitors drain after a compilation, and an optional
+//! scheduling perturbation ([`yield_point`]).  Nothing here changes
+//! what rsass computes.
+use std::cell::RefCell;
+use std::sync::atomic::{AtomicU32, AtomicU64, Ordering};
+
+/// An event recorded by a hook.
+#[derive(Clone, Debug)]
+pub struct Event {
+    /// Process-wide sequence number (orders events of different threads).
+    pub seq: u64,
+    /// The kind of event (`lock`, `unlock`, `module`, `dropped`, `uid`).
+    pub kind: &'static str,
+    /// First detail (a name or path).
+    pub a: String,
+    /// Second detail.
+    pub b: String,
+}
+
+static SEQ: AtomicU64 = AtomicU64::new(0);
+/// Probability (in 1/65536) that a yield point gives up the time slice.
+static YIELD_P: AtomicU32 = AtomicU32::new(0);
+
+thread_local! {
+    static LOG: RefCell<Vec<Event>> = const { RefCell::new(Vec::new()) };
+    static RNG: RefCell<u64> = const { RefCell::new(0x9e37_79b9_7f4a_7c15) };
+}
+
+/// Record an event in the log of the current thread.
+pub fn emit(kind: &'static str, a: &str, b: &str) {
+    yield_point();
+    let seq = SEQ.fetch_add(1, Ordering::Relaxed);
+    let _ = LOG.try_with(|log| {
+        if let Ok(mut log) = log.try_borrow_mut()
+            && log.len() < 100_000
+        {
+            log.push(Event {
+                seq,
+                kind,
+                a: a.into(),
+                b: b.into(),
+            });
+        }
+    });
+}
+
+/// Take (and clear) the events recorded on the current thread.
+pub fn take_events() -> Vec<Event> {
+    LOG.try_with(|log| std::mem::take(&mut *log.borrow_mut()))
+        .unwrap_or_default()
+}
+
+/// Set the probability (`p / 65536`) of yielding at a yield point.
+pub fn set_yield_probability(p: u32) {
+    YIELD_P.store(p, Ordering::Relaxed);
+}
+
+/// Seed the thread-local generator used by [`yield_point`].
+pub fn seed_thread(seed: u64) {
+    let _ = RNG.try_with(|r| *r.borrow_mut() = seed | 1);
+}
+
+/// A point between critical sections where the scheduler may be
+/// perturbed.  Never called with a lock held.
+pub fn yield_point() {
+    let p = YIELD_P.load(Ordering::Relaxed);
+    if p == 0 {
+        return;
+    }
+    let hit = RNG
+        .try_with(|r| {
+            let mut x = *r.borrow_mut();
+            x ^= x << 13;
+            x ^= x >> 7;
+            x ^= x << 17;
+            *r.borrow_mut() = x;
+            ((x >> 24) & 0xffff) as u32
+        })
+        .unwrap_or(u32::MAX);
+    if hit < p {
+        std::thread::yield_now();
+    }
+}
